@@ -113,7 +113,6 @@ func VerifStack(features, k, interim int) {
 		reached := loadbalancer.VerifBackendHits("b0") > hits
 		id := rec.wire.Get("X-Request-ID")
 		kind, _ := loadbalancer.VerifLastBackend()
-		verifrt.Known("C16-headers-cleared-after-interim-1xx", interim != 0 && reached && kind != 1)
 		verifrt.Assert(id != "" && rec.wire.Get("X-Trace-ID") != "", "every response path carries the request-ID and trace headers")
 		verifrt.Assert(clientID == "" || id == "" || id == clientID, "a client-supplied request ID is echoed unchanged on every response path")
 		if !keyOK {
